@@ -166,6 +166,10 @@ pub fn spell(from: &str, target: &str, variant: u8) -> String {
         3 => format!("./zz/./../{rel}"),
         // a blank in a name may be written as it is or as %20; blanks around the whole
         // string are not part of it (URL parsing strips them)
+        // the module's absolute path, plain or through directories that may not exist
+        9 => format!("/w/{target}"),
+        10 => format!("/w/zz/../{target}"),
+        11 => format!("/w/{}/../{target}", fd.first().copied().unwrap_or("nowhere")),
         4 => rel.replace(' ', "%20"),
         5 => format!("{} ", rel.replace(' ', "%20")),
         // file URLs take a backslash for a slash: the separator between a directory *name*
@@ -655,8 +659,10 @@ pub fn sweep_scenario(mut i: u64) -> Scenario {
 }
 
 pub fn gen_scenario(rng: &mut Rng) -> Scenario {
-    let n = rng.range(1, 6);
-    let shape = rng.weighted(&[4, 2, 2, 2, 1]); // dag, chain, diamond-ish dense dag, with back edge, random
+    // now and then a project of dozens of modules (chain, star or sparse dag; sometimes with a back edge)
+    let big = rng.chance(1, 40);
+    let n = if big { rng.range(30, 70) } else { rng.range(1, 6) };
+    let shape = if big { 5 } else { rng.weighted(&[4, 2, 2, 2, 1]) }; // dag, chain, diamond-ish dense dag, with back edge, random
     let mut modules: Vec<ModuleSpec> = (0..n)
         .map(|i| {
             let path = match rng.below(9) {
@@ -677,7 +683,7 @@ pub fn gen_scenario(rng: &mut Rng) -> Scenario {
     let add = |modules: &mut Vec<ModuleSpec>, rng: &mut Rng, a: usize, b: usize| {
         modules[a].imports.push(Import {
             target: Target::Module(b),
-            spelling: rng.below(9) as u8,
+            spelling: rng.below(12) as u8,
             qualified: rng.chance(3, 4),
         });
     };
@@ -717,6 +723,34 @@ pub fn gen_scenario(rng: &mut Rng) -> Scenario {
             let b = rng.below(a + 1);
             add(&mut modules, rng, a, b); // back edge or self loop
         }
+        5 => {
+            match rng.below(3) {
+                0 => {
+                    for a in 0..n - 1 {
+                        add(&mut modules, rng, a, a + 1);
+                    }
+                }
+                1 => {
+                    for b in 1..n {
+                        add(&mut modules, rng, 0, b);
+                    }
+                }
+                _ => {
+                    for a in 0..n - 1 {
+                        add(&mut modules, rng, a, a + 1);
+                        if a + 2 < n && rng.chance(1, 2) {
+                            let b = a + 2 + rng.below(n - a - 2);
+                            add(&mut modules, rng, a, b);
+                        }
+                    }
+                }
+            }
+            if rng.chance(1, 5) {
+                let a = rng.below(n);
+                let b = rng.below(a + 1);
+                add(&mut modules, rng, a, b);
+            }
+        }
         _ => {
             let e = rng.below(n * 2 + 1);
             for _ in 0..e {
@@ -731,7 +765,7 @@ pub fn gen_scenario(rng: &mut Rng) -> Scenario {
         let a = rng.below(n);
         if let Some(imp) = modules[a].imports.first().cloned() {
             let mut d = imp;
-            d.spelling = rng.below(9) as u8;
+            d.spelling = rng.below(12) as u8;
             d.qualified = rng.chance(1, 2);
             modules[a].imports.push(d);
         }
@@ -739,7 +773,7 @@ pub fn gen_scenario(rng: &mut Rng) -> Scenario {
     // missing targets
     if rng.chance(1, 5) {
         let a = rng.below(n);
-        let sp = rng.below(9) as u8;
+        let sp = rng.below(12) as u8;
         modules[a].imports.push(Import {
             target: Target::Missing(format!("x{}.oal", rng.below(3))),
             spelling: sp,
@@ -768,7 +802,7 @@ pub fn variant(scn: &Scenario, rng: &mut Rng) -> Scenario {
     for m in v.modules.iter_mut() {
         rng.shuffle(&mut m.imports);
         for imp in m.imports.iter_mut() {
-            imp.spelling = rng.below(9) as u8;
+            imp.spelling = rng.below(12) as u8;
         }
     }
     v
